@@ -43,6 +43,22 @@ def _guarded_solve(a, b, *args, **kw):
 
 _sl.solve = _guarded_solve
 
+# scipy 1.18's eig (called with check_finite=False by evp.als / tdmd) hands NaN / Inf matrices to LAPACK: gebal refuses them
+# ("parameter number 3 had an illegal value"), and the routines that follow run with the uninitialised balancing output; after a
+# few thousand such calls in one process the heap is corrupted ("corrupted size vs. prev_size", seen in the C06 thorough tier).
+# The harness answers non-finite eigenproblems with LinAlgError instead (third-party limit, outside every property).
+_scipy_eig = _sl.eig
+
+
+def _guarded_eig(a, b=None, *args, **kw):
+    import numpy as _np
+    if not _np.all(_np.isfinite(_np.asarray(a))) or (b is not None and not _np.all(_np.isfinite(_np.asarray(b)))):
+        raise _np.linalg.LinAlgError('harness guard: eig of a matrix with NaN / Inf entries')
+    return _scipy_eig(a, b, *args, **kw)
+
+
+_sl.eig = _guarded_eig
+
 
 class CaseTimeout(Exception):
     """one generated case did not finish within the per-case limit (a non-terminating or diverging implementation)"""
